@@ -285,3 +285,15 @@ impl<A: ?Sized, X: ?Sized> Rel<X> for A {}
 /// An aliased result type: sylvia cannot see the response type through it, so queries returning it
 /// must name their response type with `resp=`.
 pub type QResult<T, E> = Result<T, E>;
+
+/// Types whose *last path segment* equals a conventional generic parameter name (C19): a path such as
+/// `svmon::named::Msg` is not a use of the user's parameter `Msg`.
+pub mod named {
+    macro_rules! named_types {
+        ($($n:ident),*) => { $(
+            #[cosmwasm_schema::cw_serde]
+            pub struct $n { pub v: u32 }
+        )* };
+    }
+    named_types!(A, B, C, D, E, F, G, H, I, J, K, L, M, N, O, P, Q, R, S, T, U, V, W, X, Y, Z, Msg, Query, Param, Data, Exec, Custom, Item);
+}
